@@ -149,6 +149,29 @@ func vFanTemplates(proj map[string]interface{}) []*vEntry {
 			add(id, "PRIVMSG "+up(n)+" :hi")
 		}
 	}
+	// a line that arrives from another address: a fresh one, and every GLINE-banned one of this state
+	// (ProcessMessage records the address first and closes sessions coming from a banned address)
+	addrs := []string{"a9"}
+	if cfg, ok := proj["cfg"].(map[string]interface{}); ok {
+		if b, ok := cfg["banned"].(map[string]interface{}); ok {
+			addrs = append(addrs, sortedKeys(b)...)
+		}
+	}
+	base := len(res)
+	for k := 0; k < base; k++ {
+		e := res[k]
+		if e.T != "line" || k%3 != 0 {
+			continue
+		}
+		for _, a := range addrs {
+			if a == "" {
+				continue
+			}
+			c := *e
+			c.Addr = a
+			res = append(res, &c)
+		}
+	}
 	return res
 }
 
